@@ -6,6 +6,8 @@ pub mod r#async;
 pub mod binning_index;
 pub mod fs;
 pub mod io;
+#[cfg(noodles_verif)]
+pub mod verif;
 
 pub use self::binning_index::BinningIndex;
 use self::binning_index::index::reference_sequence::index::BinnedIndex;
